@@ -1613,7 +1613,16 @@ private:
     }
     else
     {
-      _peerIndex.erase(pkey);
+      // The peer index maps a source address to the ONE session that receives that peer's
+      // datagrams. Several ServerPeer sessions can share a pkey (connectViaListener to a peer
+      // that already has a session), so only the session the entry points at may remove it;
+      // otherwise closing any of the others would orphan the receiving session and the peer's
+      // next datagram would be announced as a brand-new accept.
+      auto pit = _peerIndex.find(pkey);
+      if (pit != _peerIndex.end() && pit->second == sid)
+      {
+        _peerIndex.erase(pit);
+      }
     }
 
     _atomicStats.closed++;
